@@ -196,7 +196,9 @@ Fixpoint rsegs (cors : bool) (n : node) (segs : list str) (m : str) {struct n} :
 (* ------------------------------------------------------------------ *)
 (* Building the tree (file_router.go Route.add)                         *)
 
-Inductive seg := Lit (s : str) | Var (name : str).
+(* a template segment: a literal, or a variable (its name plays no part in
+   routing; path-parameter parsing re-derives it from the raw template) *)
+Inductive seg := Lit (s : str) | Var.
 Definition tmpl := list seg.
 
 Fixpoint add (n : node) (t : tmpl) (it : item) {struct t} : node :=
@@ -204,9 +206,9 @@ Fixpoint add (n : node) (t : tmpl) (it : item) {struct t} : node :=
   | Node statics var kids vkid =>
     match t with
     | [] => n
-    | [Var _] => Node statics (Some it) kids vkid
+    | [Var] => Node statics (Some it) kids vkid
     | [Lit d] => Node (statics ++ [(d, it)]) var kids vkid
-    | Var _ :: t' =>
+    | Var :: t' =>
       Node statics var kids
            (Some (add (match vkid with Some v => v | None => empty_node end) t' it))
     | Lit d :: t' =>
@@ -239,7 +241,7 @@ Definition rbrace : ascii := "}"%char.
 Definition seg_of_dir (d : str) : seg :=
   match d with
   | c :: r => if ascii_eqb c lbrace && ascii_eqb (last d " "%char) rbrace
-              then Var (removelast r) else Lit d
+              then Var else Lit d
   | [] => Lit []
   end.
 
@@ -249,7 +251,3 @@ Definition tmpl_of_raw (raw : str) : tmpl :=
                                | [] => []
                                end)).
 
-Definition seg_raw (s : seg) : str :=
-  match s with Lit d => d | Var n => lbrace :: n ++ [rbrace] end.
-
-Definition raw_of_tmpl (t : tmpl) : str := enc (map seg_raw t).
